@@ -91,48 +91,189 @@ fn textual(f: &Facts) -> Facts {
     t
 }
 
-fn with_opts(ctx: &mut Ctx, f: &Facts, o: &JaxOpts, transitive: bool, what: &str) -> Option<Obs> {
-    let mut g = f.clone();
-    if o.has(&Distractor::MissingDataVersion) || o.has(&Distractor::NoHeaderBlock) {
-        g.version = (0, 0, 0);
-        // render() leaves the line out; the expectation is version 0000-00-00
+/// What a run may do besides loading the files into exactly the model of the facts: inputs that the quantifier of
+/// the property does not list get a policy-neutral oracle instead of today's behaviour.
+#[derive(Clone, Default)]
+struct Leeway {
+    /// non-empty: the loader may refuse the files with an error (the reasons, for the counters); a panic is a
+    /// violation either way, and an ontology that is returned must be the described one
+    may_refuse: Vec<&'static str>,
+    /// the release version is not compared (no data-version line: nothing states what the version then is)
+    ignore_version: bool,
+    /// further fact sets the loaded ontology may equal (a record name with and without its surrounding blanks)
+    alternatives: Vec<Facts>,
+}
+
+impl Leeway {
+    fn strict(&self) -> bool {
+        self.may_refuse.is_empty() && !self.ignore_version && self.alternatives.is_empty()
     }
-    if o.has(&Distractor::NoHeaderBlock) || o.has(&Distractor::MissingDataVersion) {
+}
+
+/// The leeway that follows from the file layout and the facts themselves.
+fn leeway_for(f: &Facts, o: &JaxOpts) -> Leeway {
+    let mut lw = Leeway::default();
+    if o.has(&Distractor::NoHeaderBlock) {
         // the property does not say what a file without header block / without data-version line is worth: a loader
-        // may insist on either (an error is tolerated); if it loads the file, every stanza counts and the release
-        // version is the "unknown" one, 0000-00-00 (what the crate documents for ontologies without version)
-        let kind = if o.has(&Distractor::NoHeaderBlock) { "no header block" } else { "no data-version line" };
-        return tolerant(ctx, &g, o, transitive, what, kind);
+        // may insist on either (an error is tolerated); if it loads the file, every stanza counts
+        lw.may_refuse.push("no header block");
+        lw.ignore_version = true;
     }
-    via_jax(ctx, &g, o, transitive, what)
+    if o.has(&Distractor::MissingDataVersion) {
+        lw.may_refuse.push("no data-version line");
+        lw.ignore_version = true;
+    }
+    if o.has(&Distractor::GeneMinimalColumns) || o.has(&Distractor::HpoaMinimalColumns) {
+        // the quantifier lists EXTRA trailing columns; rows that end after the last column today's parser reads occur
+        // in no release, a loader may check the column count
+        lw.may_refuse.push("rows with fewer columns than the format has");
+    }
+    if o.has(&Distractor::TagsBeforeName) {
+        // legal OBO, but every OBO serialiser writes id, name, ... in a fixed order; the quantifier lists stanza
+        // order, not tag order
+        lw.may_refuse.push("tags between id: and name:");
+    }
+    if o.has(&Distractor::DuplicateIsA) {
+        lw.may_refuse.push("a doubled is_a line");
+    }
+    if f.terms.iter().any(|t| t.name.len() > 255) || f.anns.iter().any(|a| a.kind == Kind::Gene && a.name.len() > 255) {
+        // the 255-byte limit belongs to the binary format (C07); a text loader that refuses what as_bytes cannot
+        // carry is defensible, one that accepts it must keep the name
+        lw.may_refuse.push("a term name or gene symbol of more than 255 bytes");
+    }
+    lw
 }
 
-/// Policy-neutral run: the loader may refuse the files with an error; if it loads them the result must be the
-/// model of the facts. A panic is a violation either way. Returns Some(accepted?) unless the loader panicked.
-fn tolerant(ctx: &mut Ctx, g: &Facts, o: &JaxOpts, transitive: bool, what: &str, kind: &str) -> Option<Obs> {
-    tolerant_outcome(ctx, g, o, transitive, what, kind).1
+fn with_opts(ctx: &mut Ctx, f: &Facts, o: &JaxOpts, transitive: bool, what: &str) -> Option<Obs> {
+    let lw = leeway_for(f, o);
+    if lw.strict() {
+        return via_jax(ctx, f, o, transitive, what);
+    }
+    with_leeway(ctx, f, jax::render(f, o), &format!("{o:?}"), transitive, what, &lw).1.map(|x| x.0)
 }
 
-fn tolerant_outcome(ctx: &mut Ctx, g: &Facts, o: &JaxOpts, transitive: bool, what: &str, kind: &str) -> (Option<bool>, Option<Obs>) {
-    let rendered = jax::render(g, o);
-    let case = || json!({"facts": g.to_json(), "order": what, "options": format!("{o:?}"), "transitive_loader": transitive, "hp.obo": rendered.obo, "phenotype.hpoa": rendered.hpoa, "genes": if transitive { &rendered.phenotype_to_genes } else { &rendered.genes_to_phenotype }});
+/// Policy-neutral run of one rendered file set (`rendered` was made from `g`, possibly edited by the caller): within
+/// the given leeway the loader may refuse the files with an error; if it loads them the result must be the model of
+/// the facts (or of one of the alternatives). A panic is a violation either way.
+/// Returns (Some(accepted?) unless the loader panicked, the observation and the index of the fact set it equals:
+/// 0 = `g`, i = alternatives[i - 1]).
+fn with_leeway(ctx: &mut Ctx, g: &Facts, rendered: jax::Rendered, options: &str, transitive: bool, what: &str, lw: &Leeway) -> (Option<bool>, Option<(Obs, usize)>) {
+    let kind = if lw.may_refuse.is_empty() { "layout variant".to_string() } else { lw.may_refuse.join(" + ") };
+    let case = || json!({"facts": g.to_json(), "order": what, "options": options, "transitive_loader": transitive, "hp.obo": rendered.obo, "phenotype.hpoa": rendered.hpoa, "genes": if transitive { &rendered.phenotype_to_genes } else { &rendered.genes_to_phenotype }});
+    let path = format!("{}, {kind}", if transitive { "jax transitive" } else { "jax" });
+    ctx.transitions(g.n_steps());
     match jax::load(&rendered, transitive) {
         Ok(Ok(ont)) => {
-            let r = crate::model::RefOnt::derive(g);
-            ctx.transitions(g.n_steps());
-            let obs = drive::check_against_model(ctx, &ont, &r, Mode::Defaults, &format!("{}, {kind}", if transitive { "jax transitive" } else { "jax" }), &case);
-            (Some(true), obs)
-        }
-        Ok(Err(_)) => {
             ctx.exec();
+            ctx.validated();
+            let obs = match Obs::of(&ont) {
+                Ok(o) => o,
+                Err(inc) => {
+                    ctx.violation(&inc.site, &format!("[{path}] read API inconsistent or panicking"), json!({"path": path, "case": case(), "observed": inc.what}));
+                    return (Some(true), None);
+                }
+            };
+            let mut first: Option<(String, String, String)> = None;
+            let mut matched: Option<usize> = None;
+            for (i, alt) in std::iter::once(g).chain(lw.alternatives.iter()).enumerate() {
+                let mut exp = Obs::expected(&crate::model::RefOnt::derive(alt), Mode::Defaults);
+                if lw.ignore_version {
+                    exp.version = obs.version.clone();
+                }
+                match obs.diff(&exp, false) {
+                    None => {
+                        matched = Some(i);
+                        break;
+                    }
+                    Some(d) => {
+                        first.get_or_insert(d);
+                    }
+                }
+            }
+            ctx.outcome(obs.fingerprint());
+            match (matched, first) {
+                (Some(i), _) => (Some(true), Some((obs, i))),
+                (None, Some((site, sig, det))) => {
+                    ctx.violation(&site, &format!("[{path}] {sig}"), json!({"path": path, "case": case(), "difference": det, "alternatives_tried": lw.alternatives.len()}));
+                    (Some(true), None)
+                }
+                (None, None) => (Some(true), None),
+            }
+        }
+        Ok(Err(e)) => {
+            ctx.exec();
+            if lw.may_refuse.is_empty() {
+                ctx.violation("Ontology::from_standard", &format!("[{}] rejects valid JAX files", if transitive { "jax transitive" } else { "jax" }), json!({"case": case(), "observed": e}));
+            } else {
+                for r in &lw.may_refuse {
+                    ctx.bump(&format!("refused: {r}"), 1);
+                }
+            }
             (Some(false), None)
         }
         Err(p) => {
             ctx.exec();
-            ctx.violation("Ontology::from_standard", &format!("[jax, {kind}] panics"), json!({"case": case(), "observed": p}));
+            ctx.violation("Ontology::from_standard", &format!("[{path}] panics"), json!({"case": case(), "observed": p}));
             (None, None)
         }
     }
+}
+
+/// Observational identity of two real ontologies built from the same facts through different constructors: the whole
+/// observation, information content up to rounding (which float expression a constructor evaluates is not part of it).
+fn same_up_to_rounding(ctx: &mut Ctx, a: &Obs, b: &Obs, what: &str, case: &dyn Fn() -> serde_json::Value) {
+    if let Some((site, sig, det)) = b.diff(a, false) {
+        ctx.violation(&site, &format!("[{what}] {sig}"), json!({"comparison": what, "case": case(), "difference": det}));
+    }
+}
+
+/// phenotype.hpoa with a NOT-qualified twin (same disease, same term, another reference) directly before / after
+/// every positive OMIM / ORPHA row: a NOT row between two positive rows of one disease, and a NOT row of one disease
+/// directly followed by a positive row of the next
+fn interleave_not_twins(hpoa: &str, before: bool) -> String {
+    let mut out = String::with_capacity(hpoa.len() * 2);
+    for line in hpoa.split_inclusive('\n') {
+        let body = line.strip_suffix('\n').unwrap_or(line);
+        let cols: Vec<&str> = body.split('\t').collect();
+        let twin = if (body.starts_with("OMIM:") || body.starts_with("ORPHA:")) && cols.len() >= 4 && cols[2].is_empty() {
+            let mut t: Vec<String> = cols.iter().map(|c| c.to_string()).collect();
+            t[2] = "NOT".into();
+            if t.len() > 4 {
+                t[4] = "PMID:424242".into();
+            }
+            Some(format!("{}\n", t.join("\t")))
+        } else {
+            None
+        };
+        match twin {
+            Some(t) if before => {
+                out.push_str(&t);
+                out.push_str(line);
+                if !line.ends_with('\n') {
+                    out.push('\n');
+                }
+            }
+            Some(t) => {
+                out.push_str(line);
+                if !line.ends_with('\n') {
+                    out.push('\n');
+                }
+                out.push_str(&t);
+            }
+            None => out.push_str(line),
+        }
+    }
+    out
+}
+
+/// the facts rendered with `o`, every positive disease row with a NOT twin directly before / after it
+fn with_interleaved_twins(ctx: &mut Ctx, f: &Facts, o: &JaxOpts, before: bool, transitive: bool, what: &str) {
+    let mut tf = f.clone();
+    tf.anns.retain(|a| a.term.is_some());
+    let mut rendered = jax::render(&tf, o);
+    rendered.hpoa = interleave_not_twins(&rendered.hpoa, before);
+    let lw = leeway_for(&tf, o);
+    with_leeway(ctx, &tf, rendered, &format!("{o:?} + a NOT twin directly {} every positive row", if before { "before" } else { "after" }), transitive, what, &lw);
 }
 
 /// The canonical rendering with NO file under the name of the gene file the loader does not read.
@@ -148,7 +289,15 @@ fn other_file_absent(ctx: &mut Ctx, f: &Facts, transitive: bool) {
         }
         Ok(Err(e)) => {
             ctx.exec();
-            ctx.violation("Ontology::from_standard", &format!("[{path}] rejects valid JAX files"), json!({"case": case(), "observed": e}));
+            // (facts a loader may refuse anyway, e.g. a term name beyond 255 bytes: see leeway_for)
+            let lw = leeway_for(f, &JaxOpts::default());
+            if lw.may_refuse.is_empty() {
+                ctx.violation("Ontology::from_standard", &format!("[{path}] rejects valid JAX files"), json!({"case": case(), "observed": e}));
+            } else {
+                for r in &lw.may_refuse {
+                    ctx.bump(&format!("refused: {r}"), 1);
+                }
+            }
         }
         Err(p) => {
             ctx.exec();
@@ -182,13 +331,15 @@ fn release_dates() -> Vec<(u16, u8, u8)> {
 
 pub fn run(ctx: &mut Ctx) {
     let thorough = ctx.tier.thorough();
-    ctx.rule = "case = one fact set (labelled DAG over HP:1, HP:118 + <= 2 terms, flag variant, record pattern) rendered as JAX files: all stanza orders, all gene-row and disease-row orders (<= 4 rows, rotations above), every single distractor, both loaders, the gene file the loader does not read holding other rows or missing; plus all pairs of distractors on a set of base fact sets; plus one base fact set with every release date of a value grid, every record name of a list (empty, padded, non-ASCII, long) in every column layout, and two same-named records of each kind; differential against the Builder-built and binary-loaded ontology; distinct by construction; non-trivial = fact set with records of at least two kinds".into();
+    ctx.rule = "case = one fact set (labelled DAG over HP:1, HP:118 + <= 2 terms, flag variant, record pattern) rendered as JAX files: all stanza orders, all gene-row and disease-row orders (<= 4 rows, rotations above), every single distractor, both loaders, the gene file the loader does not read holding other rows or missing; plus all pairs of distractors on a set of base fact sets; every stanza-layout distractor also with the stanzas reversed, NOT twins interleaved with the positive rows, every row twice with other values in the ignored columns; plus one base fact set with every release date of a value grid, record ids over the whole u32 range, every record name of a list (empty, padded, non-ASCII, the placeholder -, long) in every column layout, and two same-named records of each kind; differential against the Builder-built and binary-loaded ontology (information content up to rounding); distinct by construction; non-trivial = fact set with records of at least two kinds".into();
     ctx.assumptions = vec![
         "only constructs occurring in JAX releases or allowed there by the OBO format are generated (is_a lines carry the ' ! name' comment, stanzas are separated by one blank line, the header starts with format-version: 1.2; header tags in any order after it; consider / namespace tags; a repeated is_a line names the same parent once more); each gene file carries its own header line".into(),
         "records without any term cannot be expressed in the text formats".into(),
         "release years have four digits".into(),
-        "a file set without header block or without data-version line may be refused with an error; if it is loaded the release version is 0000-00-00".into(),
-        "an empty gene symbol / disease name may be refused with an error, but then in every column layout alike; padded and non-ASCII record names are kept byte for byte, as the Builder keeps them".into(),
+        "a file set without header block or without data-version line may be refused with an error; if it is loaded every stanza counts and the release version is not compared (nothing states what it is without a data-version line)".into(),
+        "policy-neutral (refusal with an error tolerated, a returned ontology must be the described one): rows with fewer columns than the format has (the quantifier lists EXTRA trailing columns), tags between id: and name: and a doubled is_a line (legal OBO, in no release), term names / gene symbols of more than 255 bytes (the limit of the binary format), record ids with more digits than any release has (genes > 9, diseases > 6), an empty or all-blank gene symbol / disease name".into(),
+        "blanks at the ends of a gene symbol / disease name may be kept or trimmed (the statement does not fix them, JAX data has none); the Builder differential uses the spelling the loader arrived at. Non-ASCII names are kept byte for byte".into(),
+        "the differential partner (Builder, from_bytes) failing to build is the partner's property (C15, C08): counted, not reported".into(),
         "only the gene file a loader is documented to read counts: the folder holds a file with other rows (or no file) under the other name".into(),
     ];
     let family: Vec<(Facts, String)> = format_family(if thorough { 4 } else { 4 }, if thorough { 1 } else { 6 }).into_iter().map(|(f, w)| (textual(&f), w)).collect();
@@ -220,28 +371,23 @@ pub fn run(ctx: &mut Ctx) {
         if let Some(jobs) = &base_obs {
             if f.terms.iter().all(|t| !t.obsolete && t.replacement.is_none()) {
                 ctx.transitions(f.n_steps());
-                match drive::build(f, Mode::Defaults) {
-                    Ok(b) => match Obs::of(&b) {
-                        Ok(bobs) => {
-                            ctx.exec();
-                            drive::check_same(ctx, &bobs, jobs, "from_standard vs Builder", &|| json!({"facts": f.to_json(), "family": what}));
-                        }
-                        Err(i) => ctx.violation(&i.site, "[builder] read API inconsistent", json!({"facts": f.to_json(), "observed": i.what})),
-                    },
-                    Err(e) => ctx.violation("Builder", "[builder] construction fails on valid facts", json!({"facts": f.to_json(), "observed": e})),
+                // (a Builder / decoder that cannot produce the partner is C15's / C08's business: counted, not reported)
+                match drive::build(f, Mode::Defaults).map(|b| Obs::of(&b)) {
+                    Ok(Ok(bobs)) => {
+                        ctx.exec();
+                        same_up_to_rounding(ctx, &bobs, jobs, "from_standard vs Builder", &|| json!({"facts": f.to_json(), "family": what}));
+                    }
+                    _ => ctx.bump("differential_partner_not_available: Builder", 1),
                 }
             }
             if f.terms.iter().all(|t| t.name.len() <= 255) {
                 ctx.transitions(f.n_steps());
-                match drive::from_bytes(&encode::encode(f, &EncOpts::v(3))) {
-                    Ok(Ok(b)) => match Obs::of(&b) {
-                        Ok(bobs) => {
-                            ctx.exec();
-                            drive::check_same(ctx, &bobs, jobs, "from_standard vs from_bytes(v3)", &|| json!({"facts": f.to_json(), "family": what}));
-                        }
-                        Err(i) => ctx.violation(&i.site, "[binary] read API inconsistent", json!({"facts": f.to_json(), "observed": i.what})),
-                    },
-                    other => ctx.violation("Ontology::from_bytes", "rejects a file laid out as documented", json!({"facts": f.to_json(), "observed": format!("{:?}", other.map(|r| r.map(|_| ())))})),
+                match drive::from_bytes(&encode::encode(f, &EncOpts::v(3))).map(|r| r.map(|b| Obs::of(&b))) {
+                    Ok(Ok(Ok(bobs))) => {
+                        ctx.exec();
+                        same_up_to_rounding(ctx, &bobs, jobs, "from_standard vs from_bytes(v3)", &|| json!({"facts": f.to_json(), "family": what}));
+                    }
+                    _ => ctx.bump("differential_partner_not_available: from_bytes(v3)", 1),
                 }
             }
         }
@@ -288,6 +434,29 @@ pub fn run(ctx: &mut Ctx) {
                 with_opts(ctx, f, &o, true, &format!("distractor {d:?} (transitive loader)"));
             }
         }
+        // stanza-layout distractors with the stanzas in reverse order (a child's stanza before its parents'): what a
+        // loader makes of ids in tags it should ignore (consider, alt_id, values) may depend on which stanzas it has seen
+        for d in [Distractor::ExtraTags, Distractor::TagsBetweenIsA, Distractor::ConsiderNamespaceTags, Distractor::IsATextInValues, Distractor::IsATrailingModifier, Distractor::TagsBeforeName, Distractor::DuplicateIsA] {
+            let mut o = JaxOpts::default();
+            o.stanza_order = Some((0..n).rev().collect());
+            o.distractors = vec![d.clone()];
+            with_opts(ctx, f, &o, false, &format!("distractor {d:?}, stanzas reversed"));
+        }
+        // a NOT twin directly after / before every positive row (NOT rows between the positive rows of one disease)
+        with_interleaved_twins(ctx, f, &JaxOpts::default(), false, false, "NOT twins interleaved, after");
+        with_interleaved_twins(ctx, f, &JaxOpts::default(), true, false, "NOT twins interleaved, before");
+        // every row twice, the copies differing only in the columns a loader ignores (reference, frequency, disease_id
+        // ...: the normal case in real files): adjacent copies, and the whole list once more
+        if !f.anns.is_empty() {
+            let mut o = JaxOpts::default();
+            o.distractors = vec![Distractor::GeneFilledColumns, Distractor::HpoaFilledColumns];
+            let mut adjacent = f.clone();
+            adjacent.anns = f.anns.iter().flat_map(|a| [a.clone(), a.clone()]).collect();
+            with_opts(ctx, &adjacent, &o, false, "every row twice (adjacent), other values in the ignored columns");
+            let mut appended = f.clone();
+            appended.anns.extend(f.anns.iter().cloned());
+            with_opts(ctx, &appended, &o, true, "all rows once more at the end, other values in the ignored columns (transitive loader)");
+        }
         ctx.sample(|| json!({"family": what, "facts": f.to_json(), "hp.obo": jax::render(f, &JaxOpts::default()).obo}));
     }
 
@@ -326,15 +495,12 @@ pub fn run(ctx: &mut Ctx) {
         .map(|(f, _)| f.clone());
     let builder_differential = |ctx: &mut Ctx, g: &Facts, jobs: &Obs, what: &str| {
         ctx.transitions(g.n_steps());
-        match drive::build(g, Mode::Defaults) {
-            Ok(b) => match Obs::of(&b) {
-                Ok(bobs) => {
-                    ctx.exec();
-                    drive::check_same(ctx, &bobs, jobs, "from_standard vs Builder", &|| json!({"facts": g.to_json(), "variant": what}));
-                }
-                Err(i) => ctx.violation(&i.site, "[builder] read API inconsistent", json!({"facts": g.to_json(), "observed": i.what})),
-            },
-            Err(e) => ctx.violation("Builder", "[builder] construction fails on valid facts", json!({"facts": g.to_json(), "observed": e})),
+        match drive::build(g, Mode::Defaults).map(|b| Obs::of(&b)) {
+            Ok(Ok(bobs)) => {
+                ctx.exec();
+                same_up_to_rounding(ctx, &bobs, jobs, "from_standard vs Builder", &|| json!({"facts": g.to_json(), "variant": what}));
+            }
+            _ => ctx.bump("differential_partner_not_available: Builder", 1),
         }
     };
     // ---- release dates: the data-version line is text, every digit position takes every kind of value
@@ -392,6 +558,77 @@ pub fn run(ctx: &mut Ctx) {
             ctx.sample(|| json!({"stanza_order": order}));
         }
     }
+    // ---- record ids over their whole range: on the text path the three id types are parsed from decimal text by three
+    // separate pieces of code; the ids of the other spaces stay below 5014 (genes), 81 (ORPHA) and at 6xx xxx (OMIM)
+    if let Some(base) = &base {
+        // ids as they occur in releases (NCBI gene ids have up to nine digits, OMIM and ORPHA numbers up to six) must
+        // load; longer ones are legal values of the crate's id types but no JAX file has them: refuse-or-exact
+        let gene_ids: [u32; 16] = [1, 9, 10, 255, 256, 65_535, 65_536, 99_999, 16_777_215, 16_777_216, 100_128_545, 999_999_999, 1_000_000_000, 2_147_483_647, 2_147_483_648, u32::MAX];
+        let disease_ids: [u32; 14] = [1, 9, 10, 255, 256, 65_535, 65_536, 99_999, 100_000, 999_999, 1_000_000, 16_777_216, 2_147_483_648, u32::MAX];
+        ctx.space("bases/record-ids-over-the-whole-range", &format!("one base fact set x one gene with the id in {gene_ids:?} / one OMIM / one ORPHA disease with the id in {disease_ids:?} (up to 9 digits for genes and 6 for diseases: must load; above: refuse-or-exact) x rows as listed / reversed x both loaders; against the model"));
+        for kind in [Kind::Gene, Kind::Omim, Kind::Orpha] {
+            let ids: &[u32] = if kind == Kind::Gene { &gene_ids } else { &disease_ids };
+            for &id in ids {
+                if !ctx.take() {
+                    continue;
+                }
+                ctx.state();
+                ctx.nontrivial();
+                let rid = base.anns.iter().find(|a| a.kind == kind).map(|a| a.id).unwrap();
+                let mut g = base.clone();
+                g.anns.retain(|a| !(a.kind == kind && a.id == id));
+                for a in g.anns.iter_mut().filter(|a| a.kind == kind && a.id == rid) {
+                    a.id = id;
+                }
+                let as_in_releases = if kind == Kind::Gene { id <= 999_999_999 } else { id <= 999_999 };
+                let ng = g.anns.iter().filter(|a| a.kind == Kind::Gene).count();
+                let nd = g.anns.len() - ng;
+                for reversed in [false, true] {
+                    let mut o = JaxOpts::default();
+                    if reversed {
+                        o.gene_row_order = Some((0..ng).rev().collect());
+                        o.disease_row_order = Some((0..nd).rev().collect());
+                    }
+                    for transitive in [false, true] {
+                        let what = format!("{} id {id}{}{}", kind.name(), if reversed { ", rows reversed" } else { "" }, if transitive { " (transitive loader)" } else { "" });
+                        if as_in_releases {
+                            via_jax(ctx, &g, &o, transitive, &what);
+                        } else {
+                            let lw = Leeway { may_refuse: vec!["a record id with more digits than any release has"], ..Default::default() };
+                            with_leeway(ctx, &g, jax::render(&g, &o), &format!("{o:?}"), transitive, &what, &lw);
+                        }
+                    }
+                }
+                ctx.sample(|| json!({"kind": kind.name(), "id": id}));
+            }
+        }
+    }
+    // ---- NOT twins interleaved with the positive rows, in every order of the disease rows
+    {
+        let bases: Vec<&(Facts, String)> = family.iter().filter(|(f, _)| [Kind::Omim, Kind::Orpha].iter().all(|k| f.anns.iter().any(|a| a.kind == *k)) && f.terms.len() >= 3).collect();
+        let step = (bases.len() / if thorough { 40 } else { 10 }).max(1);
+        let bases: Vec<&(Facts, String)> = bases.into_iter().step_by(step).collect();
+        ctx.space("bases/not-twins-interleaved", &format!("{} base fact sets x every order of the disease rows (all permutations up to 4 rows, rotations + reverse above) x a NOT-qualified twin directly after | before every positive row x both loaders", bases.len()));
+        for (f, what) in bases {
+            let nd = f.anns.iter().filter(|a| a.kind != Kind::Gene).count();
+            let dp = if nd <= 4 { permutations(nd) } else { rotations_and_reverse(nd) };
+            for p in dp {
+                if !ctx.take() {
+                    continue;
+                }
+                ctx.state();
+                ctx.nontrivial();
+                let mut o = JaxOpts::default();
+                o.disease_row_order = Some(p.clone());
+                for before in [false, true] {
+                    for transitive in [false, true] {
+                        with_interleaved_twins(ctx, f, &o, before, transitive, &format!("disease rows {p:?}, NOT twins {}", if before { "before" } else { "after" }));
+                    }
+                }
+                ctx.sample(|| json!({"family": what, "disease_rows": p, "phenotype.hpoa": interleave_not_twins(&jax::render(f, &o).hpoa, false)}));
+            }
+        }
+    }
     // ---- record names: gene symbols and disease names are free text between two tabs (or a tab and the line end)
     if let Some(base) = &base {
         let names: Vec<(&str, String)> = vec![
@@ -405,6 +642,9 @@ pub fn run(ctx: &mut Ctx) {
             ("the word NOT", "NOT".into()),
             ("colon and blank", "a: b".into()),
             ("hyphen, comma, digit", "Ehlers-Danlos syndrome, type 4".into()),
+            // the placeholder JAX writes for genes without a symbol (and for unknown values in other columns)
+            ("a hyphen", "-".into()),
+            ("a full stop", ".".into()),
             ("255 bytes", "G".repeat(255)),
             ("256 bytes", "G".repeat(256)),
             ("300 bytes", "a".repeat(300)),
@@ -419,7 +659,7 @@ pub fn run(ctx: &mut Ctx) {
             vec![Distractor::GeneFilledColumns, Distractor::HpoaFilledColumns],
             vec![Distractor::AnnotationFilesNoTrailingNewline],
         ];
-        ctx.space("bases/record-names", &format!("one base fact set x {} names (empty, blanks, padded, non-ASCII, NOT, punctuation, 255 ... 5000 bytes) given to one gene / OMIM / ORPHA record x its rows in place and as last rows of the file x {} column layouts (full, minimal = name of a gene is the LAST column of phenotype_to_genes.txt, minimal without final newline, filled optional columns, full without final newline) x both loaders; against the model, canonical layout also against the Builder; the empty name may be refused, but then in every layout", names.len(), layouts.len()));
+        ctx.space("bases/record-names", &format!("one base fact set x {} names (empty, blanks, padded, non-ASCII, NOT, the placeholder -, punctuation, 255 ... 5000 bytes) given to one gene / OMIM / ORPHA record x its rows in place and as last rows of the file x {} column layouts (full, minimal = name of a gene is the LAST column of phenotype_to_genes.txt, minimal without final newline, filled optional columns, full without final newline) x both loaders; against the model, canonical layout also against the Builder; policy-neutral: an empty or blank name and a gene symbol beyond 255 bytes may be refused, blanks at the ends of a name may be kept or trimmed, the minimal layouts may be refused", names.len(), layouts.len()));
         for (label, name) in &names {
             for kind in [Kind::Gene, Kind::Omim, Kind::Orpha] {
                 if !ctx.take() {
@@ -438,30 +678,39 @@ pub fn run(ctx: &mut Ctx) {
                 let (mut mine, others): (Vec<_>, Vec<_>) = g_last.anns.iter().cloned().partition(|a| a.kind == kind && a.id == rid);
                 g_last.anns = others;
                 g_last.anns.append(&mut mine);
-                // accepted? per loader, for the empty name
-                let mut accepted: [Vec<(bool, String)>; 2] = [vec![], vec![]];
+                // the name as a loader that trims fields (or whole lines, as the hpoa parser does today) sees it:
+                // nothing in the statement fixes white space at the ends of a name, and JAX data has none
+                let mut spellings: Vec<String> = vec![];
+                for t in [name.trim(), name.trim_end(), name.trim_start()] {
+                    if t != name.as_str() && !spellings.iter().any(|x| x == t) {
+                        spellings.push(t.to_string());
+                    }
+                }
                 for (rows, gg) in [("rows in place", &g), ("rows last in the file", &g_last)] {
                     for (li, l) in layouts.iter().enumerate() {
                         let mut o = JaxOpts::default();
                         o.distractors = l.clone();
                         for transitive in [false, true] {
                             let what = format!("{} name {label} ({} bytes), {rows}, layout {l:?}", kind.name(), name.len());
-                            if name.is_empty() {
-                                if let (Some(acc), _) = tolerant_outcome(ctx, gg, &o, transitive, &what, "empty record name") {
-                                    accepted[transitive as usize].push((acc, format!("{rows}, {l:?}")));
+                            let mut lw = leeway_for(gg, &o);
+                            if name.trim().is_empty() {
+                                // an empty (or, for a trimming loader, blank) column: not a gene symbol / disease name
+                                lw.may_refuse.push("empty or blank record name");
+                            }
+                            for sp in &spellings {
+                                let mut alt = (*gg).clone();
+                                for a in alt.anns.iter_mut().filter(|a| a.kind == kind && a.id == rid) {
+                                    a.name = sp.clone();
                                 }
-                            } else {
-                                let obs = via_jax(ctx, gg, &o, transitive, &what);
-                                if let (Some(jobs), 0, false, true) = (&obs, li, transitive, rows == "rows in place") {
-                                    builder_differential(ctx, gg, jobs, &what);
-                                }
+                                lw.alternatives.push(alt);
+                            }
+                            let obs = if lw.strict() { via_jax(ctx, gg, &o, transitive, &what).map(|x| (x, 0)) } else { with_leeway(ctx, gg, jax::render(gg, &o), &format!("{o:?}"), transitive, &what, &lw).1 };
+                            // the Builder keeps a name as it is handed in: compared with the spelling the loader arrived at
+                            if let (Some((jobs, which)), 0, false, true, false) = (&obs, li, transitive, rows == "rows in place", name.trim().is_empty()) {
+                                let same_facts = if *which == 0 { gg } else { &lw.alternatives[*which - 1] };
+                                builder_differential(ctx, same_facts, jobs, &what);
                             }
                         }
-                    }
-                }
-                for (t, acc) in accepted.iter().enumerate() {
-                    if let (Some(yes), Some(no)) = (acc.iter().find(|a| a.0), acc.iter().find(|a| !a.0)) {
-                        ctx.violation("Ontology::from_standard", &format!("[{}] an empty record name is accepted in one column layout and refused in another", if t == 1 { "jax transitive" } else { "jax" }), json!({"facts": g.to_json(), "kind": kind.name(), "accepted_with": yes.1, "refused_with": no.1}));
                     }
                 }
                 ctx.sample(|| json!({"kind": kind.name(), "name": label, "bytes": name.len()}));
@@ -499,7 +748,7 @@ pub fn run(ctx: &mut Ctx) {
                         }
                         for transitive in [false, true] {
                             let what = format!("two {} records with one name, rows {}{}, layout {l:?}", kind.name(), if adjacent { "adjacent" } else { "separated by a row of a third record" }, if reversed { ", files written bottom-up" } else { "" });
-                            let obs = via_jax(ctx, &g, &o, transitive, &what);
+                            let obs = with_opts(ctx, &g, &o, transitive, &what);
                             if let (Some(jobs), true, false, false) = (&obs, l.is_empty(), transitive, reversed) {
                                 builder_differential(ctx, &g, jobs, &what);
                             }
